@@ -52,6 +52,8 @@ pub struct ReqRep {
     pub owner: &'static str,
     /// the scheduler may register the sockets in any order
     pub any_order: bool,
+    /// ready-gated sinks (see `World::gate`)
+    pub gate: bool,
 }
 
 impl ReqRep {
@@ -64,7 +66,7 @@ impl ReqRep {
             "repliers": self.repliers.iter().map(|r| r.iter().map(|k| mode_name(k)).collect::<Vec<_>>()).collect::<Vec<_>>(),
             "registration_order": self.order.iter().map(|s| match s { RSock::Q(i) => format!("Q{i}"), RSock::R(i) => format!("R{i}") }).collect::<Vec<_>>(),
             "router_hash_ranks": self.ranks,
-            "faults": self.faults, "close": self.close, "depart": self.depart, "hostile": self.hostile, "owner": self.owner, "any_registration_order": self.any_order,
+            "faults": self.faults, "close": self.close, "depart": self.depart, "hostile": self.hostile, "owner": self.owner, "any_registration_order": self.any_order, "ready_gated_sinks": self.gate,
         })
     }
 
@@ -198,6 +200,7 @@ impl<'s> Env for RrEnv<'s> {
 pub fn run(scn: &ReqRep, ch: &mut Chooser, want_trace: bool) -> RunOut {
     let taken = std::mem::replace(ch, Chooser::new(Vec::new()));
     let w: Shared = Arc::new(Mutex::new(World::new(taken, scn.faults, scn.budget())));
+    lock(&w).gate = scn.gate;
     set_current(Some(w.clone()));
     selium_server::sink::verif::set_ranks(&scn.ranks);
     let (topic, tx) = Topic::<SeliumError>::pair();
@@ -502,13 +505,22 @@ fn oracle(scn: &ReqRep, g: &World, out: &Outcome, ids: &Ids, viol: &mut Vec<RVio
     // exactly once when a replier is bound and stays bound
     for k in 0..nr {
         let r = &reps[k];
-        if let (Some(b), None, true, true) = (r.bound, r.end, r.healthy, live) {
+        // after the channel closed the same is owed once the router has finished: it terminates
+        // "after flushing what it accepted", and a request it took while a replier was bound is
+        // accepted (frames it never took, or took with nobody bound, are not)
+        let finished = !live && out.done.is_some();
+        if let (Some(b), None, true, true) = (r.bound, r.end, r.healthy, live || finished) {
             let si = ids.r_sink[k].unwrap();
             for j in 0..nq {
                 for (n, (t, rq)) in yl[j].iter().enumerate() {
                     if *t > b && matches!(rq, Frame::Message(_)) && !is_oversize_after_tag(rq) {
                         match delivered_flag[j][n] {
                             Some((kk, _)) if kk == k => {}
+                            _ if finished => viol.push(RViol {
+                                prop: "C16",
+                                clause: "reqrep:finished-with-undelivered-request".into(),
+                                msg: format!("request {} was taken from requestor {j} while R{k} was bound and healthy; the registration channel closed and the router finished without ever handing it over", frame_brief(rq)),
+                            }),
                             _ => viol.push(RViol {
                                 prop: p02,
                                 clause: "reqrep:request-lost".into(),
@@ -518,7 +530,7 @@ fn oracle(scn: &ReqRep, g: &World, out: &Outcome, ids: &Ids, viol: &mut Vec<RVio
                     }
                 }
             }
-            if g.sinks[si].flushed != g.sinks[si].accepted.len() {
+            if live && g.sinks[si].flushed != g.sinks[si].accepted.len() {
                 viol.push(RViol { prop: p02, clause: "reqrep:request-unflushed".into(), msg: format!("R{k}: {} requests handed over, only {} flushed at quiescence", g.sinks[si].accepted.len(), g.sinks[si].flushed) });
             }
         }
@@ -605,6 +617,15 @@ fn oracle(scn: &ReqRep, g: &World, out: &Outcome, ids: &Ids, viol: &mut Vec<RVio
             continue;
         }
         for (n, (_, o, required)) in owed[j].iter().enumerate() {
+            if *required && !used[n] && !live && out.done.is_some() {
+                viol.push(RViol {
+                    prop: "C16",
+                    clause: "reqrep:finished-with-undelivered-reply".into(),
+                    msg: format!("reply {} was taken from the replier for connected requestor {j}; the registration channel closed and the router finished without ever handing it over", frame_brief(o)),
+                });
+                broken = true;
+                break;
+            }
             if *required && !used[n] && live {
                 viol.push(RViol {
                     prop: p02,
@@ -634,7 +655,9 @@ fn oracle(scn: &ReqRep, g: &World, out: &Outcome, ids: &Ids, viol: &mut Vec<RVio
     // at completion everything already handed to a healthy peer has been flushed
     if let Some(_d) = out.done {
         for s in g.sinks.iter() {
-            if s.failed.is_none() && s.first_touch.is_some() && s.flushed_at_quiescence < s.accepted_at_quiescence {
+            // (a sink the router let go of while running - its peer's stream ended - is judged by the
+            // "dropped" clauses, not here: this clause is about what the router still holds when it finishes)
+            if s.failed.is_none() && s.first_touch.is_some() && in_run(s.dropped_at).is_none() && s.flushed_at_quiescence < s.accepted_at_quiescence {
                 viol.push(RViol { prop: "C16", clause: "reqrep:finished-with-unflushed-data".into(), msg: format!("the router finished with {} of {} frames handed to {} not flushed", s.accepted_at_quiescence - s.flushed_at_quiescence, s.accepted_at_quiescence, s.label) });
                 break;
             }
